@@ -354,6 +354,45 @@ def model_of_excluding(obl, extra, budget_s=60):
     return str(r), (s.model() if r == z3.sat else None)
 
 
+def has_quantifier(t, _seen=None):
+    seen = _seen if _seen is not None else set()
+    todo = [t]
+    while todo:
+        u = todo.pop()
+        k = u.get_id()
+        if k in seen:
+            continue
+        seen.add(k)
+        if z3.is_quantifier(u):
+            return True
+        if z3.is_app(u):
+            todo.extend(u.children())
+    return False
+
+
+def relaxed_model(obl, budget_s=30):
+    """For an obligation the solvers left `unknown` (typically: quantified hypotheses, for which a solver cannot certify `sat`):
+    look for a counter-model with the quantified assumptions DROPPED.  Such a model is only a candidate - it counts for nothing
+    unless the native replay confirms it on the real code."""
+    try:
+        asserts = z3.parse_smt2_string(obl.query_smt2())
+    except z3.Z3Exception:
+        return None
+    s = z3.Solver()
+    s.set("timeout", int(budget_s * 1000))
+    dropped = 0
+    for a in asserts:
+        if has_quantifier(a):
+            dropped += 1
+        else:
+            s.add(a)
+    if not dropped:
+        return None
+    if s.check() == z3.sat:
+        return s.model()
+    return None
+
+
 def mval(model, term):
     """Concrete python value of a z3 term under a model (ints / bools)."""
     v = model.eval(term, model_completion=True)
